@@ -162,6 +162,9 @@ func writeEvidence(prop string, o *checkOpts, results []*exec.HarnessResult, con
 			"counterexamples":                     viol,
 			"known_findings_matched":              knownHits,
 			"load_failed":                         loadFailed,
+			"traces_validated_against_impl":       validated,
+			"native_validation_mismatches":        validationFailed,
+			"native_validation":                   "witness inputs (and recorded schedules) of sampled PASSING symbolic paths are run against the compiled harness + real code with go test -overlay; a failure would mean the executor, a stub or the replay machinery disagrees with the compiler",
 			"stale_harness_files":                 stale,
 			"checker_cmd":                         "/verif/bin/sv check " + prop + " --tier " + o.tier,
 		},
